@@ -806,6 +806,23 @@ def gen_cases(ctx):
                           "wfloat": k % 7 == 3, "access": ["plain", "plain", "link_dir", "plain", "relative"][k % 5]
                           if k % 4 == 0 else "plain"})
             k += 1
+    # recording lengths exactly ON the window lattice ns = W + k (W - 576), and one sample either side: the float
+    # window count must come out as k + 1 exactly, else the true last window is cut by 288 samples
+    k = 0
+    for W in (588, 600, 1200, 1500, 2400, 3000, 3600, 6000, 9000, 12000) + ((4800, 7200, 18000, 30000)
+                                                                            if ctx.thorough() else ()):
+        for kk in (0, 1, 2, 3):
+            for dlt in ((0, -1, 1) if (kk < 2 or ctx.thorough()) else (0,)):
+                ns = W + kk * (W - 576) + dlt
+                nap = 384 if (W, kk, dlt) in ((3000, 1, 0), (3600, 1, 0), (6000, 1, 0)) else rng.choice([1, 2, 3])
+                cases.append({"nap": nap, "ns": ns, "W": W, "labels": gen_labels(rng, nap), "gain": GAINS[k % 9],
+                              "template": k % len(TEMPLATES), "post_check": k % 5 == 0,
+                              "full": nap < 10 and ns * (nap + 1) <= 12000, "wfloat": k % 6 == 2})
+                k += 1
+    if ctx.thorough():
+        for W, ns in ((6000, 174144), (9000, 17424 + 8424 * 10), (3000, 3000 + 2424 * 40)):
+            cases.append({"nap": 1, "ns": ns, "W": W, "labels": [rng.randrange(4)], "gain": rng.choice(GAINS),
+                          "template": 0, "post_check": False, "full": False})
     # windows not above the hard-coded overlap (multiples of 12): init_params must refuse them (repo 904fe91; before,
     # they lost samples, never terminated or divided by zero), whatever the recording length
     for W, ns in [(300, 200), (564, 563), (564, 564), (300, 300), (288, 200), (240, 200), (420, 150),
@@ -911,7 +928,7 @@ def run(ctx):
             "full_model_runs": 0, "values_compared": 0, "codec_lists": 0,
             "window_below_overlap": 0, "original_is_cbin": 0, "rerun_sequences": 0, "rebuild_next_to_original_meta": 0,
             "rebuild_next_to_stale_meta": 0, "folder_suffix_extra": 0, "reconstructor_compress": 0, "nsamples_prefix": 0,
-            "shorter_than_overlap": 0, "shorter_than_taper": 0, "via_symlinked_folder": 0, "via_symlinked_files": 0,
+            "shorter_than_overlap": 0, "length_on_window_lattice": 0, "length_next_to_lattice": 0, "shorter_than_taper": 0, "via_symlinked_folder": 0, "via_symlinked_files": 0,
             "via_relative_path_other_cwd": 0, "all_65536_values_files": 0, "float_nwindow": 0, "str_path": 0, "compressed_shanks": 0}
     gains_seen, nontrivial, samples = set(), set(), []
     kernel_full = 0
@@ -960,6 +977,9 @@ def run(ctx):
         if case.get("compress") and obs.get("compressed_left_bin"):
             ctx.fail("compress=True left the uncompressed shank .bin next to the .cbin", dsc, {"kind": "compress"})
         dist["shorter_than_overlap"] += ns <= 576 and W > 576
+        if W > 576 and ns >= W:
+            dist["length_on_window_lattice"] += (ns - W) % (W - 576) == 0
+            dist["length_next_to_lattice"] += (ns - W) % (W - 576) in (1, W - 577)
         nw = (max(-(-(ns - W) // (W - 576)), 0) + 1) if W > 576 else 1
         dist["nap384"] += nap == 384
         dist["multi_window"] += nw > 1
